@@ -49,6 +49,10 @@ pub(super) struct Operation {
     obj: Ref,
     action: Action,
     location: Location,
+
+    /// The operation fails instead of blocking (`try_lock` and the like): a
+    /// thread about to perform it is never blocked on its object.
+    nonblocking: bool,
 }
 
 // TODO: move to separate file
@@ -414,6 +418,23 @@ impl<T: Object<Entry = Entry>> Ref<T> {
         self.branch_action(Action::Opaque, location)
     }
 
+    /// Branch on an operation that fails instead of blocking.
+    pub(super) fn branch_nonblocking(
+        self,
+        action: impl Into<Action> + std::fmt::Debug,
+        location: Location,
+    ) {
+        super::branch(|execution| {
+            trace!(obj = ?self, ?action, "Object::branch_nonblocking");
+
+            self.set_action(execution, action.into(), location);
+
+            if let Some(operation) = execution.threads.active_mut().operation.as_mut() {
+                operation.nonblocking = true;
+            }
+        })
+    }
+
     fn set_action(self, execution: &mut Execution, action: Action, location: Location) {
         assert!(
             T::get_ref(&execution.objects.entries[self.index]).is_some(),
@@ -425,6 +446,7 @@ impl<T: Object<Entry = Entry>> Ref<T> {
             obj: self.erase(),
             action,
             location,
+            nonblocking: false,
         });
     }
 }
@@ -440,6 +462,10 @@ impl Operation {
 
     pub(super) fn location(&self) -> Location {
         self.location
+    }
+
+    pub(super) fn is_nonblocking(&self) -> bool {
+        self.nonblocking
     }
 }
 
